@@ -66,6 +66,37 @@ CHECKS = {
         "against `stylua -` on hand cases, a multi-megabyte program and repository inputs under every stdin-compatible option, with the working directory's bytes and mtimes compared. Partial: buffering and locking are runtime behaviour.",
    design="5/C17", technique="Coq process model (small theorems) + binary correspondence on stdin runs",
    note=BASE_NOTE + "Partial by nature: pipe buffering / large writes are exercised once, not modelled."),
+ "C01": dict(
+   text="Partial. Theorems: a token list whose members re-lex one by one re-lexes as a whole (any length), with per-class conditions on what may follow an identifier, keyword, string, long bracket, number, minus sign, `[`, line comment; "
+        "on every layout path no unary minus meets a minus sign and printed expressions re-parse to themselves. Not proved: acceptance by full_moon's statement parser. Validation: every output of generated programs x configurations (x ranges, sort) "
+        "re-parsed by full_moon; the Coq lexer model compared with full_moon's tokenizer on every input and output.",
+   design="5/C01", technique="Coq proof (lexer round trip, expression side conditions) + re-parse of every output + lexer-model differential",
+   note=BASE_NOTE + "Seed-driven exploration only where established clean (comments at statement boundaries); a fixed regression set with comments anywhere has its failures listed per input (known finding F-C01-baseline)."),
+ "C02": dict(
+   text="Partial. Theorems: the parenthesis rule preserves the semantic tree on every layout path and its output re-parses to it; string and number rewriting preserve denotations; the erasure ignores exactly whitespace, comments, parentheses, semicolons, commas. "
+        "Validation: erased token sequence (Coq lexer + denotations) and an AST normal form independent of --verify compared between input and output on generated programs x configurations x ranges.",
+   design="5/C02", technique="Coq proof on the meaning-changing kernels + erasure / normal-form comparison judged by extracted functions",
+   note=BASE_NOTE + "Regions as for C01 (known finding F-C02-baseline)."),
+ "C03": dict(
+   text="Partial. Theorems: load_token_trivia (leading and trailing modes) keeps every comment exactly once with only the allowed normalisation, terminates every leading comment with a newline; the census sees comments only. "
+        "Tie: every traced call of the real function is replayed through the model. Validation: comment census of input vs output on generated programs x configurations x ranges x sort.",
+   design="5/C03", technique="Coq proof of the comment gate + replay of traced calls + census comparison",
+   note=BASE_NOTE + "About 150 other sites build trivia and are only validated. Regions as for C01 (known finding F-C03-baseline)."),
+ "C06": dict(
+   text="Partial. Theorems: every kernel that rewrites text or reorders is idempotent (quote rewrite, quote choice, newline conversion, comment trimming, require-group sorting). Whole-program idempotence is validated on a fixed regression set only "
+        "(second pass byte-compared); its known non-idempotent inputs are listed per input.",
+   design="5/C06", technique="Coq proof of kernel idempotence + second-pass comparison on a fixed regression set with per-input baseline",
+   note=BASE_NOTE + "No region is established clean for whole-program idempotence (1.5% of generated programs differ even at unbounded width): known finding F-C06-baseline."),
+ "C10": dict(
+   text="Partial. Theorems: the comment gate emits only the configured line ending inside block comments, trims line comments idempotently, the conversion is idempotent. Validation: the whitespace discipline (every newline in the configured form, no other CR, "
+        "indentation of the configured kind, one final line ending) evaluated by the extracted checker on every output of generated programs (LF, CRLF, mixed) x configurations; both regions clean.",
+   design="5/C10", technique="Coq proof of the comment gate's whitespace + extracted whitespace-discipline checker on every output",
+   note=BASE_NOTE + "Ignored / out-of-range text is excluded by not generating directives and ranges here."),
+ "C11": dict(
+   text="Partial. Theorems: forced quote styles are forced; AutoPrefer* takes the preferred quote unless the other needs strictly fewer escapes; the rule is observable on the output. Validation: the quote rule on every string token of every output. "
+        "Call-form and function-name spacing rules are validated on the output AST.",
+   design="5/C11", technique="Coq proof of the quote rule + rule evaluation on every output token",
+   note=BASE_NOTE),
 }
 PENDING = {}
 def main():
